@@ -43,7 +43,7 @@ func (eng *Engine) verifyContract(ct *Contract) (res *FuncResult) {
 	}
 	callsOnly := false
 	if ct.Trusted {
-		if len(ct.Calls) == 0 {
+		if len(ct.Calls) == 0 && !ct.Locks {
 			return
 		}
 		// a trusted contract (its frame and postconditions are assumed) may still
@@ -138,7 +138,7 @@ func (eng *Engine) verifyContract(ct *Contract) (res *FuncResult) {
 			}
 		}
 	}
-	if ct.ModNothing || len(ct.Modifies) > 0 {
+	if (ct.ModNothing || len(ct.Modifies) > 0) && !callsOnly {
 		vc.frame.active = true
 		vc.frame.strict = true
 		for _, cl := range ct.Modifies {
@@ -147,8 +147,25 @@ func (eng *Engine) verifyContract(ct *Contract) (res *FuncResult) {
 		}
 	}
 	entry := st.clone()
+	vc.locksOn = ct.Locks
+	inRun := func(ps []string) bool {
+		for _, p := range ps {
+			if p == eng.curProp || eng.curProp == "" || eng.curProp == "all" {
+				return true
+			}
+		}
+		return false
+	}
+	vc.lockObls, vc.guardObls = inRun(ct.LockProps), inRun(ct.GuardProps)
+	vc.rootContract = ct
+	if ct.HasAcquires {
+		vc.assumeAcquires(st, ct.Acquires)
+	}
 	results, out, retReach := vc.execFunc(fn, args, st, "true", nil, false, ct)
-	_ = entry
+	vc.lockBalance(entry, fn.Pos())
+	if ct.Locks {
+		vc.ifaceLevelCheck(fn, ct)
+	}
 	_ = results
 	_ = out
 	if retReach != "false" && !callsOnly {
